@@ -75,9 +75,10 @@ def completeLine (b : Bytes) : Bool :=
 def c08Violation (revs : List ReadEv) (wevs : List WriteEv) (proc : Proc) (maxSize : Nat)
     (ret : Option String) (calls : List (Bool × String)) (writes : List Bytes) : Option String :=
   let (_, readerFails) := readerBytes revs
-  let reported := ret.isSome || calls.any (fun c => c.2 != "-")
-  -- a reader failure is reported unless the stream had already been stopped by the processor
-  -- or by an earlier fatal error (then `ret` is set anyway)
+  -- a reader failure is reported as what it is (C08 `failure_reported`: a call carrying the scanner's
+  -- error class), unless the stream had already been stopped by the processor or by an earlier
+  -- fatal error (then `ret` is set); an unrelated error of an earlier line does not count
+  let reported := ret.isSome || calls.any (fun c => c.2 == "io" || c.2 == "too-long" || c.2 == "no-progress")
   if readerFails && !reported then some "reader-failure-swallowed"
   else
     -- writes: every write before the first failing one is a complete line
